@@ -141,6 +141,12 @@ CHECKS.update({
    technique="Lean 4 theorems decided by kernel evaluation over regenerated tables (ATN equality, grammar-vs-ATN local sets) + conformance check of real parse trees against the translated grammar"),
 })
 
+CHECKS.update({
+ "C06": dict(category="translation_validation",
+   text="A schedule property of the Go code, decided by oracle on the real code: all builds of one model - repeated Build calls, every enumerated/sampled forced depth-first start order (hook), permuted type definitions, permuted union/intersection operands, 8 concurrent goroutines - must give the identical verdict and identical weights and wildcard sets on every node and edge. The Go algorithm is not ported. The specification the results are compared with has no schedule parameter; Lean theorems (Props/C06.lean) prove the one non-obvious clause about it: the merge of weight maps and the intersection combination do not depend on operand order (merge_order_irrelevant, intersection_order_irrelevant), every state of the iteration has sorted maps (result_is_sorted), so permuting the operands of a relation/union/group/intersection node leaves its weights unchanged (operand_order_irrelevant) and the solution of the model's equations is also the solution of the model with reordered operands (reordered_model_same_solution).",
+   design_ref="DESIGN.md §6.6", note=TV_NOTE, technique=SPEC_TECH),
+})
+
 NOT_YET = {}
 
 def main():
